@@ -89,6 +89,61 @@ def gen_wide(seed, did):
     return [f"design {did}"] + g.s, ["wide"]
 
 
+def gen_edges(seed, did):
+    """registers on different edges of ONE clock pin (derived clocks: falling / both edges, own reset name / kind / polarity),
+    several such clocks in one area or entity, data crossing between the edges in both directions"""
+    rng = random.Random(seed)
+    L = [f"design {did}"]
+    if rng.random() < 0.4:
+        L.append(rng.choice(["clockcfg async high", "clockcfg sync low", "clockcfg async low", "clockcfg sync high falling"]))
+    w = rng.choice([1, 2, 2, 3])
+    L += [f"in a {w}", f"in b {w}", "inb en"]
+    clocks = ["main"]
+    for k in range(rng.choice([1, 1, 2, 3])):
+        opts = [rng.choice(["falling", "falling", "both", "rising"])]
+        if rng.random() < 0.5:
+            opts += [rng.choice(["sync", "async", "none"]), rng.choice(["high", "low"])]
+            if rng.random() < 0.6:
+                opts += ["rst", f"rst{k}"]
+        elif opts[0] == "rising":
+            opts[0] = "falling"
+        L.append(f"clockdef c{k} " + " ".join(opts))
+        clocks.append(f"c{k}")
+    vals = ["a", "b"]
+    regs = []
+    area = rng.random() < 0.6
+    if area:
+        L.append("area blk" + (" entity" if rng.random() < 0.5 else ""))
+    for k in range(rng.choice([4, 5, 6, 8])):
+        c = rng.choice(clocks)
+        src = rng.choice(regs[-3:] + vals) if regs and rng.random() < 0.7 else rng.choice(vals)
+        if rng.random() < 0.3 and len(vals) > 2:
+            t = f"t{k}"
+            L.append(f"bin {t} {rng.choice(['add', 'xor', 'and', 'sub'])} {src} {rng.choice(vals)}")
+            src = t
+        line = f"reg q{k} {src}"
+        if rng.random() < 0.7:
+            line += " rst " + "".join(rng.choice("01") for _ in range(w))
+        if rng.random() < 0.3:
+            line += " en en"
+        if c != "main":
+            L += [f"clk {c}", line, "endclk"]
+        else:
+            L.append(line)
+        regs.append(f"q{k}")
+        vals.append(f"q{k}")
+        if area and k == 2 and rng.random() < 0.5:
+            L.append("endarea")
+            area = False
+    if area:
+        L.append("endarea")
+    for k, r in enumerate(regs):
+        L.append(f"out o{k} {r}")
+    if rng.random() < 0.4:
+        L.append("dropall")
+    return L, ["edges"]
+
+
 def gen_all(seed, tier):
     ndes = 60 if tier == "quick" else 1500
     nwide = 8 if tier == "quick" else 150
@@ -104,6 +159,8 @@ def gen_all(seed, tier):
         designs.append((lines, used))
     for i in range(nwide):
         designs.append(gen_wide(seed * 300007 + i, f"w{i}"))
+    for i in range(10 if tier == "quick" else 200):
+        designs.append(gen_edges(seed * 500009 + i, f"e{i}"))
     return designs
 
 
@@ -152,7 +209,14 @@ def analyse(did, out):
         r["status"] = "lifterror"; r["reason"] = str(ex)
         return r
     r["instances"], r["blocks"], r["procs"] = el.n_instances, el.n_blocks, len(el.procs)
-    r["in_bits"] = sum(int(w) for t in list(tr.values())[:1] for _, w in t["pins_in"])
+    htr = S.parse_htraces(out / f"{did}.htrace")
+    mf = out / f"{did}.meta"
+    meta = dict(x.split("=", 1) for x in mf.read_text().split()) if mf.exists() else {}
+    r["meta"] = meta
+    # classic = single clock pin, rising edge only, at most one reset pin: the certificate checker's circuit model
+    r["classic"] = meta.get("classic", "1") == "1"
+    nresets = len([x for x in meta.get("resets", "-").split(",") if x != "-"])
+    r["in_bits"] = sum(int(w) for t in (list(tr.values()) + list(htr.values()))[:1] for _, w in t["pins_in"])
     # route 1: lift
     try:
         lf = L.Lifter(P.load(files))
@@ -166,15 +230,17 @@ def analyse(did, out):
     # route 2: interpreter
     try:
         act = reset_polarity(el)
-        for tag, t in tr.items():
+        todo = list(htr.items()) + (list(tr.items()) if nresets <= 1 else [])   # period traces cannot name several reset pins
+        for tag, t in todo:
             m = S.replay_trace(el, t, reset_active=act, stats=r["stats"])
             if m:
                 m["trace"] = tag
                 if known_pessimism(el, t, act, m):
                     r["known"].append(m)
                 else:
-                    m["stimulus"] = circ.stim_of(t)
+                    m["stimulus"] = ("H:" if "meta" in t else "") + circ.stim_of(t)
                     r["mismatches"].append(m)
+        r["half_cycles"] = sum(len(t["cycles"]) for t in htr.values())
         tvf, tbf = out / did / "testbench.testvectors", out / did / "testbench.vhd"
         if tvf.exists() and tbf.exists():
             tv = S.replay_testvectors(el, tvf.read_text(), tbf.read_text())
@@ -287,6 +353,9 @@ def main():
             a = results[(mode, i)]
             if a["status"] != "ok":
                 continue
+            if not a["classic"]:
+                a["cert"] = "not_classic"      # mixed / falling / both edges or several reset pins: interpreter route only
+                continue
             cmds.append(f"tie {out}/{i}.net {out}/{i}.trace")
             if a["lift"] == "ok":
                 cmds_l.append(f"tie {out}/{i}.lift.net {out}/{i}.trace")
@@ -361,7 +430,10 @@ def main():
         """replay all traces of a follow-up run in the interpreter -> first genuine mismatch or None"""
         el = P.load(vhdl_files(d / did))
         act = reset_polarity(el)
-        for tag, t in circ.parse_traces(d / f"{did}.trace").items():
+        mf = d / f"{did}.meta"
+        nres = len([x for x in dict(x.split("=", 1) for x in mf.read_text().split()).get("resets", "-").split(",") if x != "-"]) if mf.exists() else 1
+        todo = list(S.parse_htraces(d / f"{did}.htrace").items()) + (list(circ.parse_traces(d / f"{did}.trace").items()) if nres <= 1 else [])
+        for tag, t in todo:
             if tag == "SKIP":
                 continue
             m = S.replay_trace(el, t, reset_active=act)
@@ -369,7 +441,7 @@ def main():
                 if known_pessimism(el, t, act, m):
                     continue
                 m["trace"] = tag
-                m["stimulus"] = circ.stim_of(t)
+                m["stimulus"] = ("H:" if "meta" in t else "") + circ.stim_of(t)
                 return m
         return None
 
@@ -463,10 +535,10 @@ def main():
             h = hashlib.sha1("".join(open(f, errors="replace").read().split("ENTITY top")[-1] for f in fs).encode()).hexdigest()
             nontrivial.add(h)
     rep.cov["distinct_nontrivial"] = len(nontrivial)
-    rep.cov["rule"] = ("design programs: corpus/C02 (hand-written: async/sync x high/low reset, nested entities and areas, wide arithmetic, non-total mux, "
+    rep.cov["rule"] = ("design programs: corpus/C02 (hand-written: async/sync x high/low reset, registers / memory ports on rising+falling+both edges of one clock pin with data crossing between the edges, several reset pins, nested entities and areas, wide arithmetic, non-total mux, "
                        "memory, tristate, falling edge, X-selector mux) + seeded lib/designgen.py shapes (if/elif chains, mux chains/merges, registers with "
                        "reset+enable, hold loops, constant folding, areas/entities, slices, shifts, arithmetic), ~45% with a random reset kind/polarity, "
-                       "+ wide-operand programs (8..128 bit; interpreter route only).  Each is built, post-processed and exported by the real library. "
+                       "+ wide-operand programs (8..128 bit; interpreter route only) + mixed-edge programs (derived clocks on one pin: falling / both edges, own reset names/kinds/polarities, cross-edge data paths; interpreter route only).  Each is built, post-processed and exported by the real library. "
                        "non-trivial = distinct exported top-entity text whose lifted netlist contains at least one register / mux / arithmetic / compare / "
                        "shift node AND whose certificate was accepted by the verified checker")
     rep.cov["output_modes"] = modes
@@ -489,6 +561,10 @@ def main():
     rep.cov["vhdl_unsupported_by_lifter_only"] = len(lift_uns)
     rep.cov["unsupported_reasons"] = sorted({a["reason"][:100] for a in uns} | {a["lift_reason"][:100] for a in lift_uns})[:10]
     rep.cov["unsupported_share"] = round((len(uns) + len(lift_uns)) / max(1, len(exported)), 4)
+    nc = [a for a in allr if a["status"] == "ok" and not a.get("classic", True)]
+    rep.cov["mixed_edge_or_multi_reset_exports"] = len(nc)
+    rep.cov["clock_edge_sets_seen"] = sorted({a["meta"].get("edges", "-") for a in allr if a.get("meta")})
+    rep.cov["half_period_samples_replayed"] = sum(a.get("half_cycles", 0) for a in allr)
     rep.cov["interpreter_replayed_designs"] = sum(1 for a in allr if a.get("interp") == "ok")
     rep.cov["interpreter_trace_cycles"] = sum(a["stats"].get("cycles", 0) for a in allr)
     rep.cov["interpreter_defined_bits_compared"] = sum(a["stats"].get("bits_compared", 0) for a in allr)
@@ -519,7 +595,8 @@ def main():
         "route 1: on undefined values the lifted netlist is evaluated with gatery's node semantics (NetDefs/NodeSemDefs), not numeric_std's; for the VHDL text only two-valued agreement (all stimuli, all cycles) and never-contradict of the lifted circuit are claimed",
         "route 2: VHDL metavalue rules (\"=\" on metavalues FALSE, X condition takes ELSE, CASE falls to OTHERS, arithmetic all-X) are modelled, but only the sampled stimuli are replayed",
         "dumped netlist and lifted netlist are each tied to the real ReferenceSimulator by per-cycle trace comparison (tie); circuit model: single clock, rising edge, reset schedule from the real simulator's event log",
-        "unsupported: GenericMemoryEntity (inferred memories), tristate / inout pins, external nodes, generics, multi-clock designs; falling-edge clocks and designs wider than %d input bits are covered by the interpreter route only" % MAX_CERT_IN_BITS,
+        "clock edges: every design is additionally replayed on HALF-PERIOD traces (inputs change and outputs are sampled between every two clock edges, reset pins by their exported names), so the edge written in each exported process (rising_edge / falling_edge / 'event) is what decides when a register updates; designs with falling/both-edge registers or several reset pins on one clock pin are covered by this interpreter route only (the certificate checker's circuit model is single rising-edge clock, one reset pin)",
+        "lifter-unsupported (interpreter only): GenericMemoryEntity (inferred memories); unsupported by both: tristate / inout pins, external nodes, generics, multi-clock designs; falling-edge clocks and designs wider than %d input bits are covered by the interpreter route only" % MAX_CERT_IN_BITS,
         "register power-on: the lifter requires signal initial value == reset value (the netlist format has one value for both); the interpreter models VHDL initial values exactly",
         "designs are sampled by the generators; the theorem closes the stimulus and cycle quantifiers per validated design",
     ]
@@ -549,7 +626,7 @@ def main():
             rep.known(f"{KNOWN_CASE} ({len(knowns)} designs this run, e.g. {did} cycle {m['cycle']} pin {m['pin']}: simulator {m['expected']}, VHDL {m['observed']}, inputs {m['inputs']})")
         else:
             violations.insert(0, dict(kind="VHDL is less defined than the reference simulation: CASE .. WHEN OTHERS => X under an undefined mux selector",
-                                      design=did, mode=mode, program=prog[did], stimulus=circ.stim_of(circ.parse_traces(WORK / ("run_" + mode) / f"{did}.trace")[m["trace"]]),
+                                      design=did, mode=mode, program=prog[did], stimulus=m.get("trace"),
                                       failing=m, vhdl=excerpt(WORK / ("run_" + mode), did, "CASE")))
     if known_shift_lit:
         rep.known(f"{KNOWN_SHIFT_LIT} ({len(known_shift_lit)} exports this run, e.g. {known_shift_lit[0][0]}: SHIFT_x(\"literal\", ..) inside a type conversion is ambiguous)")
